@@ -304,25 +304,6 @@ fn any_message_of<'a>(arr: &'a [u8; 255], kinds: u16) -> Message<'a> {
     }
 }
 
-/// C16 / C18: the three classifiers, for every message (all kinds, all parameter values, data of any length).
-#[kani::proof]
-#[kani::unwind(4)]
-fn c16_c18_classifiers() {
-    let arr: [u8; 255] = kani::any();
-    let m = any_message(&arr);
-    let reply_due = matches!(m, Message::Hello(_) | Message::QueryState(_) | Message::RequestOperation(_, _));
-    assert!(response_expected(&m) == reply_due);
-    let is_data = matches!(m, Message::SendData(_, _));
-    assert!(delay_after_send(&m) == if is_data { Some(Duration::from_millis(30)) } else { None });
-    let in_progress = matches!(m, Message::ReportState(_, State::PageLoadInProgress) | Message::ReportState(_, State::PageShowInProgress));
-    assert!(delay_after_receive(&m) == if in_progress { Some(Duration::from_millis(100)) } else { None });
-    kani::cover!(reply_due, "cov_reply_due");
-    kani::cover!(is_data, "cov_data");
-    kani::cover!(in_progress, "cov_in_progress");
-    kani::cover!(matches!(m, Message::Goodbye(_)), "cov_goodbye_no_reply");
-    kani::cover!(matches!(m, Message::Unknown(_)), "cov_unknown_no_reply");
-}
-
 // event log written by the stubs
 #[derive(Copy, Clone, PartialEq, Eq)]
 enum Ev {
